@@ -125,9 +125,7 @@ func (d *Decimal) setString(c *Context, s string) (Condition, error) {
 	s, consumed := consumePrefix(s, "nan")
 	if consumed {
 		isNaN = true
-	}
-	s, consumed = consumePrefix(s, "snan")
-	if consumed {
+	} else if s, consumed = consumePrefix(s, "snan"); consumed {
 		isNaN = true
 		d.Form = NaNSignaling
 	}
